@@ -480,7 +480,8 @@ def run(ctx):
               for e in list(ctx.fixed.values()) + list(ctx.known.values())
               if e.get("witness", {}).get("ops") and e["witness"]["ops"][0] != "BASE"]
     evaluate(ctx, corpus, judge)
-    evaluate(ctx, list(G.arity_histories()) + list(G.extra_histories()) + list(G.copy_histories()), judge)
+    evaluate(ctx, list(G.arity_histories()) + list(G.extra_histories()) + list(G.copy_histories())
+             + list(G.empty_flux_histories()), judge)
     ctx.exhaustive = True
     thorough = ctx.tier == "thorough"
     cur = []
